@@ -84,6 +84,7 @@ theorem progress {g : G} {p : P} {sk : Sk} {inp : List Nat} {x : Res} (h : Deriv
   | convIfOk _ _ ih => intro v rest hx; cases hx; simpa [nullable] using ih _ _ rfl
   | ignoreOk _ ih => intro v rest hx; cases hx; simpa [nullable] using ih _ _ rfl
   | namedOk _ ih => intro v rest hx; cases hx; simpa [nullable] using ih _ _ rfl
+  | mapOk _ ih => intro v rest hx; cases hx; simpa [nullable] using ih _ _ rfl
   | ref _ ih => intro v rest hx; exact ⟨(ih _ _ hx).1, by simp [nullable]⟩
   | _ => intro v rest hx; cases hx
 
